@@ -2,6 +2,7 @@ package main
 
 import (
 	"go/token"
+	"go/types"
 	"strings"
 
 	"golang.org/x/tools/go/ssa"
@@ -246,4 +247,182 @@ func latchOf(h *ssa.BasicBlock) *ssa.BasicBlock {
 		}
 	}
 	return h
+}
+
+// ---- value-following recursion outside the copier (C03) -----------------------------------
+
+// memoGuarded: call is dominated, in its function, by a comma-ok lookup in a
+// map whose key derives from Pointer() of value v, and the lookup's hit edge
+// does not reach the call.
+func memoGuarded(call *ssa.Call, v ssa.Value) bool {
+	f := call.Parent()
+	for _, i := range allInstrs(f) {
+		lk, ok := i.(*ssa.Lookup)
+		if !ok || !lk.CommaOk {
+			continue
+		}
+		keyOK := derivesAny(lk.Index, func(x ssa.Value) bool {
+			cc, ok := x.(*ssa.Call)
+			return ok && calleeFullName(cc) == "(reflect.Value).Pointer" && sameValue(cc.Call.Args[0], v)
+		}, nil)
+		if !keyOK {
+			continue
+		}
+		var okV ssa.Value
+		for _, r := range *lk.Referrers() {
+			if ex, ok := r.(*ssa.Extract); ok && ex.Index == 1 {
+				okV = ex
+			}
+		}
+		if okV == nil {
+			continue
+		}
+		// (1) the hit edge never reaches the call
+		hitReaches := false
+		for _, r := range *okV.Referrers() {
+			iff, ok := r.(*ssa.If)
+			if !ok {
+				continue
+			}
+			hit := iff.Block().Succs[0]
+			seen := map[*ssa.BasicBlock]bool{}
+			work := []*ssa.BasicBlock{hit}
+			for len(work) > 0 {
+				b := work[len(work)-1]
+				work = work[:len(work)-1]
+				if seen[b] {
+					continue
+				}
+				seen[b] = true
+				if b == call.Block() {
+					hitReaches = true
+				}
+				work = append(work, b.Succs...)
+			}
+		}
+		if hitReaches {
+			continue
+		}
+		// (2) the pointer is registered on the way to the call
+		registered := false
+		for _, j := range allInstrs(f) {
+			if mu, ok := j.(*ssa.MapUpdate); ok && canon(mu.Map) == canon(lk.X) && (mu.Block() == lk.Block() || lk.Block().Dominates(mu.Block())) {
+				registered = true
+			}
+		}
+		if !registered {
+			continue
+		}
+		// (3) a path to the call that bypasses the lookup exists only where v is not a pointer
+		atom := "(reflect.Value).Kind(" + canon(v) + ")"
+		g := (&predBuilder{}).pathCondAvoid(f.Blocks[0], call.Block(), map[*ssa.BasicBlock]bool{lk.Block(): true})
+		if ks := kindsWhere(g, atom); !ks[kPtr] {
+			return true
+		}
+	}
+	return false
+}
+
+// c03ValueRecursion: the two places outside the copier that follow the
+// *values* of a config graph through interface fields — Pointerify narrowing
+// an interface-typed field to the concrete type of the default's value, and
+// the overlay merging two interface-held pointees of the same type — are
+// guarded by a visited set keyed on the pointer being followed, so defaults
+// and source values that refer back to themselves through an interface
+// terminate.
+func c03ValueRecursion(c *Ctx, rule string) {
+	w := c.W
+	// (a) ptrify.pointerifyField: the self-call that passes the unwrapped interface value
+	pf := w.fn("ptrify", "pointerifyField")
+	if c.need(pf != nil, "ptrify.pointerifyField") {
+		c.analysed(relName(pf))
+		n := 0
+		for _, ci := range callsToFn(pf, pf) {
+			call := ci.(*ssa.Call)
+			var tv ssa.Value
+			for _, a := range call.Call.Args {
+				if types.TypeString(a.Type(), nil) == "reflect.Value" {
+					tv = a
+				}
+			}
+			el, ok := tv.(*ssa.Call)
+			if !ok || calleeFullName(el) != "(reflect.Value).Elem" {
+				continue
+			}
+			n++
+			// Ptr payloads only: a struct payload has no identity to come back to
+			c.check(memoGuarded(call, el), rule, relName(pf)+"#iface-narrowing", call.Pos(), "the recursion into the default's interface payload is guarded by a visited set keyed on the payload pointer",
+				"pointerifyField recurses into the value held by an interface-typed field of the defaults without a visited set: a default that refers back to itself through an interface (n.I = n) never terminates (stack overflow inside Config)")
+		}
+		if n == 0 {
+			c.bad(rule, relName(pf), pf.Pos(), "no value-following self-call found in pointerifyField")
+		}
+	}
+	// (b) overlayer.overlayInterface: the same-type merge of two interface-held pointees
+	oi := w.fn("", "overlayer.overlayInterface")
+	of := w.fn("", "overlayer.overlayField")
+	if c.need(oi != nil && of != nil, "dials.overlayer.overlayInterface / overlayField") {
+		c.analysed(relName(oi))
+		base, ov := oi.Params[1], oi.Params[2]
+		n := 0
+		for _, ci := range callsToFn(oi, of) {
+			call := ci.(*ssa.Call)
+			if call.Call.Args[1] != ssa.Value(base) {
+				continue // merges into a fresh value: nothing non-nil to come back to
+			}
+			el, ok := call.Call.Args[2].(*ssa.Call)
+			if !ok || calleeFullName(el) != "(reflect.Value).Elem" || el.Call.Args[0] != ssa.Value(ov) {
+				continue
+			}
+			// only the arm where the overlay is a pointer (its pointee has identity)
+			_, ks := kindsAtSwitch(call.Block())
+			if ks == nil || !ks[kPtr] {
+				continue
+			}
+			n++
+			c.check(memoGuarded(call, ov), rule, relName(oi)+"#same-type-merge", call.Pos(), "the merge of two interface-held pointees is guarded by a visited set keyed on the overlay pointer",
+				"overlayInterface merges the pointee of an interface-held pointer into the base's pointee of the same type without a visited set: two layers whose values refer back to themselves through an interface recurse forever (stack overflow)")
+		}
+		if n == 0 {
+			c.bad(rule, relName(oi), oi.Pos(), "no same-type pointer merge found in overlayInterface")
+		}
+	}
+	// (c) the struct that reaches overlayField by value through an interface: Elem() of the overlay only under Kind()==Ptr when the base pointer is non-nil
+	if of != nil {
+		ovp := of.Params[2]
+		merge := w.fn("", "overlayer.overlayStruct")
+		n := 0
+		for _, ci := range callsToFn(of, merge) {
+			call := ci.(*ssa.Call)
+			el, ok := call.Call.Args[2].(*ssa.Call)
+			if !ok || calleeFullName(el) != "(reflect.Value).Elem" || el.Call.Args[0] != ssa.Value(ovp) {
+				continue
+			}
+			// nil-base arm: reached only with pointerified (pointer) overlays — the by-value struct comes from
+			// overlayInterface's struct arm, which allocates and deep-copies a non-nil base first
+			nilBase, kindPtr := false, false
+			for _, ec := range condsDominating(call.Block()) {
+				if cc, ok := ec.Cond.(*ssa.Call); ok && ec.Val && calleeFullName(cc) == "(reflect.Value).IsNil" && cc.Call.Args[0] == ssa.Value(of.Params[1]) {
+					nilBase = true
+				}
+				if b, ok := ec.Cond.(*ssa.BinOp); ok {
+					if kc, ok := b.X.(*ssa.Call); ok && calleeFullName(kc) == "(reflect.Value).Kind" && kc.Call.Args[0] == ssa.Value(ovp) {
+						if k, ok := constInt(b.Y); ok && k == kPtr && (b.Op == token.EQL && ec.Val || b.Op == token.NEQ && !ec.Val) {
+							kindPtr = true
+						}
+					}
+				}
+			}
+			n++
+			if nilBase {
+				c.okTrivial(rule, relName(of)+"#elem#"+itoa(n), call.Pos(), "nil-base arm: only pointerified (pointer) overlays arrive here (reviewed: the by-value struct from overlayInterface is merged into an allocated, non-nil base)")
+				continue
+			}
+			c.check(kindPtr, rule, relName(of)+"#elem#"+itoa(n), call.Pos(), "overlay.Elem() is taken only under overlay.Kind() == Ptr",
+				"overlayField dereferences the overlay although it can be a struct that arrived by value through an interface-typed field (two layers setting an interface field to the same pointer-to-struct type): reflect panics with 'Elem on struct Value'")
+		}
+		if n == 0 {
+			c.bad(rule, relName(of), of.Pos(), "no pointee merge found in overlayField")
+		}
+	}
 }
